@@ -598,7 +598,12 @@ class RunCtx:
             except Exception as e:  # a harness/oracle bug must not pass silently
                 why = 'oracle raised %r on output %s' % (e, io[:200])
             if why is not None:
-                fid = prop.classify(c, why) if hasattr(prop, 'classify') else None
+                fid = None
+                if hasattr(prop, 'classify'):
+                    try:
+                        fid = prop.classify(c, why, io)
+                    except TypeError:
+                        fid = prop.classify(c, why)
                 if fid is not None and fid in self.kf:
                     self.res.known[fid] = self.res.known.get(fid, 0) + 1
                     continue
